@@ -273,6 +273,8 @@ func (p *Payload) extractCriticalFieldsFromBytes(data []byte, traceIdFieldNames,
 	}
 
 	var keysFound int
+	var traceIDFromField string
+	var traceIDFieldIdx int
 
 	// Read the map header
 	mapSize, remaining, err := msgp.ReadMapHeaderBytes(data)
@@ -324,9 +326,15 @@ func (p *Payload) extractCriticalFieldsFromBytes(data []byte, traceIdFieldNames,
 
 		// Handle special trace ID and parent ID fields
 		if !handled && valueType == msgp.StrType {
-			_, ok := sliceContains(traceIdFieldNames, keyBytes)
-			if p.MetaTraceID == "" && ok {
-				p.MetaTraceID, remaining, err = msgp.ReadStringBytes(remaining)
+			if idx, ok := sliceContains(traceIdFieldNames, keyBytes); ok {
+				// Of several trace ID fields the first in configured order wins,
+				// whatever their order in the payload; meta.trace_id (handled
+				// above) takes precedence over all of them.
+				var candidate string
+				candidate, remaining, err = msgp.ReadStringBytes(remaining)
+				if err == nil && candidate != "" && (traceIDFromField == "" || idx < traceIDFieldIdx) {
+					traceIDFromField, traceIDFieldIdx = candidate, idx
+				}
 				handled = true
 			} else if _, ok := sliceContains(parentIdFieldNames, keyBytes); ok {
 				var parentId string
@@ -383,6 +391,10 @@ func (p *Payload) extractCriticalFieldsFromBytes(data []byte, traceIdFieldNames,
 		}
 	}
 
+	if p.MetaTraceID == "" {
+		p.MetaTraceID = traceIDFromField
+	}
+
 	// A log message cannot be a root span.
 	if p.MetaSignalType == "log" {
 		p.MetaRefineryRoot.Unset()
@@ -411,6 +423,8 @@ func (p *Payload) ExtractMetadata() error {
 	}
 
 	// For memoized fields, directly access the map
+	var traceIDFromField string
+	var traceIDFieldIdx int
 	if p.memoizedFields != nil {
 		for key, value := range p.memoizedFields {
 			// Try metadata fields first
@@ -434,10 +448,10 @@ func (p *Payload) ExtractMetadata() error {
 
 			// If not handled as metadata, check for trace/parent ID fields
 			if !handled {
-				// Check if this is a trace ID field
-				if p.MetaTraceID == "" && slices.Contains(traceIdFieldNames, key) {
-					if v, ok := value.(string); ok && v != "" {
-						p.MetaTraceID = v
+				// Check if this is a trace ID field; the first in configured order wins
+				if idx := slices.Index(traceIdFieldNames, key); idx >= 0 {
+					if v, ok := value.(string); ok && v != "" && (traceIDFromField == "" || idx < traceIDFieldIdx) {
+						traceIDFromField, traceIDFieldIdx = v, idx
 					}
 				} else if slices.Contains(parentIdFieldNames, key) {
 					// Check if this is a parent ID field
@@ -447,6 +461,10 @@ func (p *Payload) ExtractMetadata() error {
 				}
 			}
 		}
+	}
+
+	if p.MetaTraceID == "" {
+		p.MetaTraceID = traceIDFromField
 	}
 
 	// For msgpMap fields, extract from the raw bytes
